@@ -19,6 +19,9 @@ THEOREMS = [
     "PyTrie.Props.C05.commit_produces_view",
     "PyTrie.Props.C05.batch_commit_exact",
     "PyTrie.HexW.commitLoop_view_needs_nodup",
+    "PyTrie.Props.C05.np_batch_begin",
+    "PyTrie.Props.C05.np_batch_op",
+    "PyTrie.Props.C05.np_batch_commit",
 ]
 RULE = ("prior history, then squash_changes blocks with every exit kind: normal, an exception after n of the "
         "block's operations (every n), and - for non-pruning tries - the n-th database write of the commit failing "
